@@ -212,7 +212,10 @@ def apply_mutation(tree, mut, others, live):
         dl = getattr(dst, mut['to_field'], None)
         if not isinstance(dl, list):
             raise KeyError('to_list')
-        x = lst.pop(mut['idx'])
+        x = lst[mut['idx']]
+        if any(n is dst for n in ast.walk(x)):
+            raise KeyError('destination inside the moved node (cycle)')
+        lst.pop(mut['idx'])
         dl.insert(min(mut['to_idx'], len(dl)), x)
     elif m in ('graft', 'graft_modified'):
         src = others[mut['other'] % len(others)]
@@ -318,6 +321,7 @@ class ReconRun:
         self.tuples = set()
         self.viol = None
         self.log = []
+        self.flags = set()
 
     def run(self):
         import fst
@@ -402,6 +406,11 @@ class ReconRun:
                     if not valid_ast(trial):
                         self.stats['mutation_rejected_invalid'] += 1
                         continue
+                    for p, fld in ((mut['path'], mut.get('field')), (mut.get('to_path'), mut.get('to_field'))):
+                        if p is not None and fld == 'orelse':
+                            tn = resolve(pure, [tuple(x) for x in p])
+                            if isinstance(tn, ast.If) and len(tn.orelse) == 1 and isinstance(tn.orelse[0], ast.If):
+                                self.flags.add('into_orelse_of_if_with_lone_if')
                     for p in (mut['path'], mut.get('to_path')):
                         if p:
                             top = resolve(pure, [tuple(p[0])])
@@ -467,7 +476,8 @@ class ReconRun:
             'stats': dict(self.stats), 'tuples': sorted(self.tuples), 'shapes': [], 'violation': self.viol,
             'digest': hashlib.sha1((repr(self.log) + repr(self.viol and self.viol['kind'])).encode()).hexdigest()[:16],
             'case': {'property': self.prop, 'engine': 'reconsim', 'config': cfg, 'program': program, 'others': others,
-                     'rounds': rounds_out, 'violation': self.viol, 'seed': self.seed},
+                     'rounds': rounds_out, 'violation': dict(self.viol, predicates=sorted(self.flags)) if self.viol else None,
+                     'seed': self.seed},
         }
 
     def judge(self, out, edited, src0, muts, touched, faulted):
@@ -551,5 +561,8 @@ def signature(case):
     rounds = case.get('rounds') or []
     last = rounds[-1] if rounds else {}
     muts = last.get('mutations') or []
-    return {'kind': v.get('kind'), 'mutations': '+'.join(sorted(set(m['m'] for m in muts))),
-            'faulted': bool(last.get('fail_calls'))}
+    sig = {'kind': v.get('kind'), 'mutations': '+'.join(sorted(set(m['m'] for m in muts))),
+           'faulted': bool(last.get('fail_calls'))}
+    for p in v.get('predicates') or ():
+        sig['P:' + p] = True
+    return sig
